@@ -35,8 +35,22 @@ func GenC14(t *rapid.T) *C14Case {
 	return c
 }
 
-// elemValue: pairwise distinct values that encode their position.
-func elemValue(k Kind, i int) any {
+// elemValue: pairwise distinct values that encode their position. Position 0 and every
+// seventh position hold the zero value of the kind (at most one zero per kind and container is
+// guaranteed distinct by the caller using elemValueZ).
+func elemValue(k Kind, i int) any { return elemValueZ(k, i, false) }
+
+func elemValueZ(k Kind, i int, zero bool) any {
+	if zero {
+		switch k {
+		case KInt:
+			return 0
+		case KFloat:
+			return 0.0
+		case KString:
+			return ""
+		}
+	}
 	switch k {
 	case KNil:
 		return nil
@@ -158,8 +172,10 @@ func checkListViews(c *C14Case, st *Stats) error {
 	n := len(c.Kinds)
 	vals := make([]any, n)
 	shape := V{K: KList}
+	firstOfKind := map[Kind]bool{}
 	for i, k := range c.Kinds {
-		vals[i] = elemValue(k, i)
+		vals[i] = elemValueZ(k, i, !firstOfKind[k] && c.Pred%2 == 0)
+		firstOfKind[k] = true
 		if sv, err := Snap(vals[i]); err == nil && k != KList && k != KObject {
 			shape.L = append(shape.L, sv)
 		} else {
@@ -333,6 +349,16 @@ func checkListViews(c *C14Case, st *Stats) error {
 	if gotF != wantF {
 		return errf("ReduceFloats = %v, expected %v", gotF, wantF)
 	}
+	// untyped Reduce with a nil initial value: the callback still sees every element, the first included
+	nilCalls := 0
+	gotN, _ := l.Reduce(nil, func(acc any, x any) any {
+		nilCalls++
+		prev, _ := acc.(string)
+		return prev + "," + tagOf(x)
+	}).(string)
+	if wantN := strings.Join(append([]string{""}, all...), ","); (n > 0 && gotN != wantN) || nilCalls != n {
+		return errf("Reduce(nil, f) called f %d times for %d elements and produced %q, expected %q", nilCalls, n, gotN, wantN)
+	}
 	gotR := l.Reduce("", func(acc any, x any) any { return acc.(string) + "," + tagOf(x) }).(string)
 	if wantR := strings.Join(append([]string{""}, all...), ","); gotR != wantR && !(n == 0 && gotR == "") {
 		return errf("Reduce visited %q, expected %q", gotR, wantR)
@@ -395,18 +421,22 @@ func checkObjectViews(c *C14Case, st *Stats) error {
 	if c.Route%3 == 1 {
 		// typed-map origin: the int fields come from a map[string]int, the others are Set afterwards
 		m := map[string]int{}
+		seenInt := false
 		for i, k := range c.Kinds {
 			if k == KInt {
-				m[fmt.Sprintf("k%d", i)] = elemValue(k, i).(int)
+				m[fmt.Sprintf("k%d", i)] = elemValueZ(k, i, !seenInt && c.Pred%2 == 0).(int)
+				seenInt = true
 			}
 		}
 		o = at.NewObjectFrom(m)
 	}
+	firstSeen := map[Kind]bool{}
 	vals := map[string]any{}
 	byKind := map[Kind]map[string]any{}
 	for i, k := range c.Kinds {
 		key := fmt.Sprintf("k%d", i)
-		vals[key] = elemValue(k, i)
+		vals[key] = elemValueZ(k, i, !firstSeen[k] && c.Pred%2 == 0)
+		firstSeen[k] = true
 		if !(c.Route%3 == 1 && k == KInt) {
 			o.Set(key, vals[key])
 		}
